@@ -1,7 +1,10 @@
 SPECIFICATION Spec
 CONSTANTS
   Shapers = {"A", "B"}
-  Thresholds = {0, 50, 100}
+  Thresholds = {0, 50, 501, 100}
+  NearPairs = {{50, 501}}
+  GraphKinds = {"normal", "void"}
+  Variant = "code"
   MaxCalls = 3
 INVARIANT HistoryFree
 INVARIANT CallerUntouched
